@@ -44,7 +44,7 @@ CLASSES = ["n1", "unsorted_ids", "sparse_ids", "single_parity", "duplicate_ids",
            "half_integer_positions", "object_copy", "n300"]
 CANON = gens.COLS
 ROUTES = ["StopgapMotl(df).write_out", "StopgapMotl(StopgapMotl).write_out", "Motl.load(df,stopgap).write_out",
-          "emmotl2stopgap(df,path)", "emmotl2stopgap(EmMotl,path)", "EmMotl(df).write_out(path,stopgap)"]
+          "emmotl2stopgap(df,path)", "emmotl2stopgap(EmMotl,path)", "Motl(df).write_out(path,stopgap)"]
 
 
 def plan(tier):
@@ -401,6 +401,12 @@ def _inmem(ctx, case, t, E, rng):
         ok, em = ctx.call("stopgap2emmotl(sg_df)", cm.stopgap2emmotl, sg)
         if ok:
             _judge(ctx, "converters", O.em_fields(em.df), E, False, "exact", stage="stopgap2emmotl(sg_df)")
+    elif pick == 2:                 # with an output path: the .em it writes is C01's subject, the returned list is ours
+        pem = os.path.join(ctx.scratch, "out_%s.em" % case["i"])
+        ok, em = ctx.call("stopgap2emmotl(sg_df,em_path)", cm.stopgap2emmotl, sg, pem)
+        _rm(pem)
+        if ok:
+            _judge(ctx, "converters", O.em_fields(em.df), E, False, "exact", stage="stopgap2emmotl(sg_df, em_path)")
     elif pick == 1 and ok and back is not None:
         ok, em = ctx.call("stopgap2emmotl(StopgapMotl,update)", cm.stopgap2emmotl, back, None, True)
         if ok:
@@ -452,7 +458,7 @@ def _export_via_route(ctx, case, t, E, path):
             ctx.check("update_coord", w is None, dict(w, stage="emmotl2stopgap(update_coordinates=True) in memory") if w else None)
         return True
     if route == ROUTES[5]:
-        ok, m = ctx.call("EmMotl(df)", cm.EmMotl, t)
+        ok, m = ctx.call("Motl(df)", cm.Motl, t)
         if not ok:
             return False
         ok, _ = ctx.call("Motl.write_out(path,stopgap)", m.write_out, path, "stopgap")
